@@ -114,3 +114,92 @@ def check(chk, rule, name, header, struct, invocation, n_args, expected, cfg="de
                    "(a cast or an operator in the macro binds tighter than the operators in the caller's expression)"
                    % (vals, "%#x" % v if v is not None else "not initialised", w), "include/" + header, name)
     chk.expect(rule.split(".")[0], "fields compared by the macro-hygiene witness of %s" % name, n, 2)
+
+
+
+def canonical_ir(fn):
+    """A name-independent rendering of a function's IR: per block (in layout order) the instructions with their opcode, type,
+    callee / predicate, and operands as constants or back-references (block-relative numbering of the values defined so far)."""
+    num = {}
+    out = []
+    for b in fn.order:
+        num[b.name] = "B%d" % len([k for k in num if k.startswith("%") or True if isinstance(num.get(k), str) and num[k].startswith("B")])
+    for b in fn.order:
+        rows = []
+        for i in b.insts:
+            if i.is_dbg():
+                continue
+            if i.name:
+                num["v:" + i.name] = "V%d" % len([k for k in num if k.startswith("v:")])
+
+            def ref(o):
+                if o.is_const_int():
+                    return "c%s" % o.sval
+                if o.is_null():
+                    return "null"
+                if o.k == "inst":
+                    return num.get("v:" + o.name, "fwd")
+                if o.k == "arg":
+                    return "a:" + str(o.name)
+                if o.k in ("global", "func"):
+                    return "@" + str(o.name)
+                return o.k
+            row = [i.op, i.ty, i.callee or "", i.pred or "", i.get("nsw") and "nsw" or "", i.get("rmwop") or "", str(i.get("ordering") or "")]
+            row += [ref(o) for o in list(i.ops) + list(i.args)]
+            row += ["%s<-%s" % (ref(v), num.get(bb if isinstance(bb, str) else bb.name, "?")) for v, bb in i.incoming]
+            if i.succs:
+                row += [num.get(sx if isinstance(sx, str) else sx.name, "?") for sx in i.succs]
+            if i.op == "switch":
+                row += ["case%s" % cv for cv, bb in i["cases"]]
+            rows.append("|".join(row))
+        out.append(num[b.name] + ":" + ";".join(rows))
+    return "\n".join(out)
+
+
+def check_parenthesised_equivalence(chk, rule, header, prelude, cases, cfg="default"):
+    """Macro argument hygiene, decided semantically: for each (label, text with the placeholder ARG, low-precedence argument E) the
+    translation unit using the macro with E and the one using it with (E) must compile to the same IR (same blocks, instructions,
+    constants, callees and control flow; value names and debug information excluded).  If they differ, the macro regroups or
+    re-evaluates its argument."""
+    for label, body, arg in cases:
+        ir = []
+        for k, a in enumerate((arg, "(" + arg + ")")):
+            src = "#include <%s>\n%s\n%s\n" % (header, prelude, body.replace("ARG", a))
+            try:
+                m = build.compile_text("hygp_%s_%d.c" % ("".join(ch if ch.isalnum() else "_" for ch in label), k), src, cfg, inline_except=())
+            except AnalysisError as e:
+                chk.unknown(rule, label, "the hygiene witness does not compile: %s" % str(e)[-200:])
+                ir = None
+                break
+            fns = [f for f in m.defined_functions() if f.name.startswith("w_")]
+            ir.append("\n--\n".join(f.name + "\n" + canonical_ir(f) for f in sorted(fns, key=lambda f: f.name)))
+        if ir is None:
+            continue
+        chk.ob(rule, label, ir[0] == ir[1],
+               "the macro applied to `%s` and to `(%s)` compiles to the same code" % (arg, arg) if ir[0] == ir[1] else
+               "the macro applied to `%s` does not mean what it means applied to `(%s)`: the argument is regrouped by an operator in the "
+               "expansion (or evaluated a different number of times)" % (arg, arg), "", "")
+
+
+
+def check_single_evaluation(chk, rule, header, cases, cfg="default", prelude=""):
+    """Each API name is used as a caller writes it, with an argument that has a side effect (a call through a function pointer):
+    in the compiled witness there must be exactly one such call, outside every cycle, in a block that dominates every return -
+    a function evaluates its arguments once by construction, a macro that mentions its parameter twice does not.
+    cases: [(label, C text of a function named w_... that takes `T (*next)(void)` and uses next() as the argument)]"""
+    for label, text in cases:
+        src = "#include <%s>\n%s\n%s\n" % (header, prelude, text)
+        try:
+            m = build.compile_text("once_%s.c" % "".join(ch if ch.isalnum() else "_" for ch in label), src, cfg, inline_except=())
+        except AnalysisError as e:
+            chk.unknown(rule, label, "the witness does not compile: %s" % str(e)[-200:])
+            continue
+        for fn in [f for f in m.defined_functions() if f.name.startswith("w_")]:
+            ind = [i for i in fn.real_insts() if i.op == "call" and i.callee is None]
+            rets = fn.rets()
+            once = len(ind) == 1 and not fn.in_cycle(ind[0]) and all(fn.block_dominates(ind[0].block, r.block) for r in rets)
+            chk.ob(rule, label, once,
+                   "the argument expression is evaluated exactly once" if once else
+                   "the argument expression is evaluated %d time(s)%s: with an argument that has a side effect (taking a node off another "
+                   "list, reading a port, popping a FIFO) the value tested is not the value used" %
+                   (len(ind), " or conditionally" if len(ind) == 1 else ""), fn.loc, fn.name)
